@@ -56,6 +56,7 @@ type Exec struct {
 	depth    int
 	loopOrd  map[ast.Stmt]int
 	loopSeen map[int]bool
+	execLoopSeen map[int]bool
 	con      *Contract
 	caseName string
 	contract bool // evaluating a contract expression
@@ -826,6 +827,15 @@ func (x *Exec) evalObject(o types.Object, st *State) (Value, types.Type) {
 			}
 			return v, o.Type()
 		}
+		if x.openCaptured && x.capturedZero(o) {
+			// declared without initialiser and never assigned anywhere: it holds its zero value
+			v := x.zeroValue(st, o.Type())
+			st.env[o] = v
+			if st.old != nil {
+				st.old.env[o] = v
+			}
+			return v, o.Type()
+		}
 		if x.openCaptured {
 			// a variable captured by the literal under verification: arbitrary value of its type
 			var v Value
@@ -1499,4 +1509,70 @@ func sortedKeys(m map[string]bool) []string {
 	}
 	sort.Strings(ks)
 	return ks
+}
+
+// capturedZero: a local variable declared `var v T` (no initialiser) that is never assigned, incremented
+// or has its address taken in its function: every closure that captures it sees the zero value.
+func (x *Exec) capturedZero(o *types.Var) bool {
+	if o.Pkg() == nil || o.Parent() == o.Pkg().Scope() {
+		return false
+	}
+	info := x.info()
+	for _, f := range x.pkg.Syntax {
+		if !(f.Pos() <= o.Pos() && o.Pos() < f.End()) {
+			continue
+		}
+		var fd *ast.FuncDecl
+		for _, d := range f.Decls {
+			if d2, ok := d.(*ast.FuncDecl); ok && d2.Pos() <= o.Pos() && o.Pos() < d2.End() {
+				fd = d2
+			}
+		}
+		if fd == nil || fd.Body == nil {
+			return false
+		}
+		declared, written := false, false
+		ast.Inspect(fd.Body, func(n ast.Node) bool {
+			switch n := n.(type) {
+			case *ast.ValueSpec:
+				for _, id := range n.Names {
+					if info.Defs[id] == o && len(n.Values) == 0 {
+						declared = true
+					}
+				}
+			case *ast.AssignStmt:
+				for _, l := range n.Lhs {
+					if rootObj(info, l) == o {
+						written = true
+					}
+				}
+			case *ast.IncDecStmt:
+				if rootObj(info, n.X) == o {
+					written = true
+				}
+			case *ast.UnaryExpr:
+				if n.Op == token.AND && rootObj(info, n.X) == o {
+					written = true
+				}
+			case *ast.RangeStmt:
+				if n.Key != nil && rootObj(info, n.Key) == o || n.Value != nil && rootObj(info, n.Value) == o {
+					written = true
+				}
+			case *ast.CallExpr:
+				// a method with a pointer receiver called on the variable takes its address
+				if se, ok := n.Fun.(*ast.SelectorExpr); ok && rootObj(info, se.X) == o {
+					if fn, ok := info.ObjectOf(se.Sel).(*types.Func); ok {
+						if sig, ok := fn.Type().(*types.Signature); ok && sig.Recv() != nil {
+							if _, isPtr := sig.Recv().Type().(*types.Pointer); isPtr {
+								written = true
+							}
+						}
+					}
+				}
+			}
+			return true
+		})
+		return declared && !written
+	}
+	return false
 }
